@@ -294,7 +294,7 @@ def random_designs(tier, seed):
                     return ref(n)
                 flatten(t, f"t{i}", {"a": res(conn["a"]), "b": res(conn["b"]), "s": conn["s"]}, out)
             # keeps the product small: <= 4 state bits, and the elaborated design cheap enough to interpret
-            if 1 <= len(out["registered"]) <= 2 and len(out["conc"]) + len(out["seq"]) <= (9 if tier == "quick" else 14):
+            if 1 <= len(out["registered"]) <= 2 and len(out["conc"]) + len(out["seq"]) <= 9:
                 break
         name = f"E12R_{idx:03d}"
         tmpls = used_templates(top_insts)
